@@ -1,4 +1,7 @@
+#[cfg(not(feature = "cosmian_cover_crypt_verif"))]
 use std::collections::{HashMap, HashSet};
+#[cfg(feature = "cosmian_cover_crypt_verif")]
+use crate::verif_model::collections::{HashMap, HashSet};
 
 use cosmian_crypto_core::{reexport::rand_core::SeedableRng, Aes256Gcm, CsRng};
 
